@@ -185,7 +185,9 @@ class ChoreoBase:
         out = []
         for _ in range(rng.randrange(0, size + 1) if rng.random() < 0.5 else 0):
             if cls is c.AbsoluteTag:
-                v = rng.randrange(0, 4097) / 4096.0 if self.mode != 'text' else rng.choice([rng.randrange(0, 4097) / 4096.0, rng.random()])
+                # 16-bit code / 4096: the whole range [0, 16)
+                k = rng.choice([rng.randrange(0, 4097), rng.randrange(0, 65536), 65535])
+                v = k / 4096.0 if self.mode != 'text' else rng.choice([k / 4096.0, rng.random() * 15.9])
             else:
                 v = self._byteval(rng) if self.mode != 'text' else rng.choice([self._byteval(rng), rng.random()])
             name = self._str(rng, avoid)
